@@ -537,10 +537,13 @@ def execute(case, stats):
                         # write through the model views, then unit of every leaf that was updated in place
                         y32 = yleaves is not None and any(G.bufs[G.arr[o]["buf"]].dtype == np.float32 for o in yleaves)
                         tol_op = 1e-6 if (y32 or rtol_of(xdt) > 1e-12) else 1e-12
+                        # absolute part: rounding of the operands (cancellation in sums of 32-bit numbers)
+                        mag = max([float(np.max(np.abs(q))) for q in xold + conv] + [0.0])
+                        atol_op = tol_op * mag
                         for o, v in zip(xl, xnew):
                             a = G.arr[o]
                             realv = np.asarray(a["real"].values)
-                            if realv.shape != v.shape or not np.allclose(realv.astype(float), v, rtol=tol_op, atol=0):
+                            if realv.shape != v.shape or not np.allclose(realv.astype(float), v, rtol=tol_op, atol=atol_op):
                                 V(step, op, "inplace-value", {"got": realv.tolist(), "want": v.tolist()})
                                 break
                             # the verified real values become the model's (drift control)
@@ -570,7 +573,7 @@ def execute(case, stats):
                             rl = [r] if h[0] == "arr" else list(r._xyz.values())
                             ol = [oop] if h[0] == "arr" else list(oop._xyz.values())
                             for a_, b_ in zip(rl, ol):
-                                if not np.allclose(np.asarray(a_.values, dtype=float), np.asarray(b_.values, dtype=float), rtol=tol, atol=0):
+                                if not np.allclose(np.asarray(a_.values, dtype=float), np.asarray(b_.values, dtype=float), rtol=tol, atol=atol_op):
                                     V(step, op, "inplace-vs-outofplace", {"values_inplace": np.asarray(a_.values).tolist(), "values_out_of_place": np.asarray(b_.values).tolist()})
                                     break
                                 if a_.unit != b_.unit:
